@@ -255,6 +255,9 @@ static void roundtrip_one(int pi, int tree, int sp, int vp, int topt)
 		jwt_checker_setkey(c, cfgalg, pub);
 		jwt_checker_setcb(c, capture_cb, &cap);
 		vf_now = T0 + 20;   /* inside [nbf, exp) for every option combination */
+		/* every second checker has already refused something (no error_clear in between) when it is shown the token */
+		if (tree % 2)
+			(void)jwt_checker_verify(c, "eyJhbGciOiJub25lIn0.e30.c2ln");
 		int r = jwt_checker_verify(c, tok);
 		vf_now = T0;
 		n_verifies++;
